@@ -59,6 +59,10 @@ func init() {
 }
 
 func runC40(c *Ctx) {
+	requireStateless(c, "M1-no-state-between-requests",
+		"(*control/drkey/grpc.Server).DRKeyLevel1", "(*control/drkey/grpc.Server).DRKeyIntraLevel1",
+		"(*control/drkey/grpc.Server).DRKeyASHost", "(*control/drkey/grpc.Server).DRKeyHostAS",
+		"(*control/drkey/grpc.Server).DRKeyHostHost", "(*control/drkey/grpc.Server).DRKeySecretValue")
 	pk := "control/drkey/grpc."
 	sT := "(*control/drkey/grpc.Server)"
 	peerAddr := "google.golang.org/grpc/peer.FromContext(arg0)#0.Addr"
